@@ -453,12 +453,20 @@ def check_d(ctx, facts):
     pre_ok = any(isinstance(s, ast.Assign) and any(isinstance(t, ast.Name) and t.id == flag for t in s.targets) and norm(s.value) == 'True'
                  for s in ts.body if s.lineno < wl.lineno)
     fors = [x for x in wl.body if isinstance(x, ast.For)]
-    if len(fors) != 1 or not isinstance(fors[0].target, ast.Name):
+    if len(fors) != 1:
         ctx.error('C04.d', 'pass loop `for i in range(len(self.propagatables))` not found')
         return
     fl = fors[0]
-    i = fl.target.id
-    if norm(fl.iter).replace(' ', '') not in ('range(len(self.propagatables))', 'range(0,len(self.propagatables))'):
+    enum_leaf = None
+    if isinstance(fl.target, ast.Tuple) and len(fl.target.elts) == 2 and all(isinstance(x, ast.Name) for x in fl.target.elts) \
+            and norm(fl.iter).replace(' ', '') == 'enumerate(self.propagatables)':
+        i, enum_leaf = fl.target.elts[0].id, fl.target.elts[1].id
+    elif isinstance(fl.target, ast.Name):
+        i = fl.target.id
+    else:
+        ctx.error('C04.d', 'pass loop target not recognised')
+        return
+    if enum_leaf is None and norm(fl.iter).replace(' ', '') not in ('range(len(self.propagatables))', 'range(0,len(self.propagatables))'):
         ctx.violation('C04.d', 'pass-covers-list', 'a pass iterates `%s`, not every position of the evaluation list' % norm(fl.iter), where,
                       witness=dict(schedule='dependent block in the last position'))
     else:
@@ -478,6 +486,8 @@ def check_d(ctx, facts):
     al = single_defs(list(fl.body))
     posn = [k for k, v in al.items() if isinstance(v, ast.Call) and is_call_to(v, 'findFirstDependentPosition')]
     leafn = [k for k, v in al.items() if norm(v) == 'self.propagatables[%s]' % i]
+    if enum_leaf is not None:
+        leafn = [enum_leaf]
     if len(posn) != 1 or len(leafn) != 1 or [norm(z) for z in al[posn[0]].args] != [leafn[0]]:
         ctx.error('C04.d', 'pass body no longer has the shape leaf = list[i]; pos = findFirstDependentPosition(leaf)')
         return
@@ -692,7 +702,183 @@ def check_d(ctx, facts):
                       witness=dict(configuration='fan-out two with the second consumer earlier in the list'))
 
 
+# ---------------------------------------------------------------- C04.f sorter on elaborated netlists
+def check_f(ctx, facts, tier, seed):
+    """The scheduling code is structure-only (it never touches a wire value), so it is evaluated abstractly
+    (hv/elab.py) on elaborated netlists: random acyclic netlists built in shuffled instantiation orders, the
+    library catalogue, and small cyclic netlists.  The resulting evaluation list must be a topological order of
+    the wire-dependency graph; cyclic netlists must be refused."""
+    import random
+    from ..elab import ElabError, ElabRaise, PyExc, ObjV
+    from ..netlist import Design, NetError
+    from ..specs import SPECS
+    rnd = random.Random(seed + 404)
+    where = '%s:Simulator.topologicalSort' % SIM
+
+    def sort(D):
+        sc = D.el.find_class('Simulator', SIM)
+        sim = ObjV(sc)
+        sim.attrs['sys'] = D.sys
+        D.el.steps = 0
+        D.el.call(D.el.getattr_(sim, 'topologicalSort'), [], {}, {})
+        return sim
+
+    def deps(D):
+        leaves = D.leaves()
+        prod = {}
+        for lf in leaves:
+            if facts.lookup(lf.cinfo, 'propagate') is None:
+                continue
+            for po in lf.attrs.get('outPorts', []):
+                w = po.attrs.get('wire')
+                if w is not None:
+                    prod.setdefault(w.oid, []).append(lf)
+        edges = []
+        for lf in leaves:
+            if facts.lookup(lf.cinfo, 'propagate') is None:
+                continue
+            for po in lf.attrs.get('inPorts', []):
+                w = po.attrs.get('wire')
+                for p in prod.get(w.oid, []) if w is not None else []:
+                    if p is not lf:
+                        edges.append((p, lf))
+        return [l for l in leaves if facts.lookup(l.cinfo, 'propagate') is not None], edges
+
+    def verify(D, label):
+        try:
+            sim = sort(D)
+        except ElabRaise as e:
+            return 'acyclic netlist refused: %s' % e
+        order = sim.attrs.get('propagatables', [])
+        comb, edges = deps(D)
+        pos = {}
+        for i, o in enumerate(order):
+            if o.oid in pos:
+                return 'block %s is scheduled twice' % o.attrs.get('name')
+            pos[o.oid] = i
+        for l in comb:
+            if l.oid not in pos:
+                return 'combinational block %s is not scheduled' % l.attrs.get('name')
+        for p, c in edges:
+            if pos[p.oid] > pos[c.oid]:
+                return 'block %s is evaluated before its driver %s' % (c.attrs.get('name'), p.attrs.get('name'))
+        return None
+
+    def random_netlist(k, nin):
+        D = Design(facts)
+        wires = [D.wire('i%d' % i, 2) for i in range(nin)]
+        plan = []
+        for g in range(k):
+            kind = rnd.choice(('Buf', 'Not', 'And2', 'Or2', 'Mux2', 'Bits', 'Reg', 'And2', 'Or2'))
+            avail = list(wires)
+            if kind in ('Buf', 'Not', 'Reg'):
+                out = D.wire('w%d' % g, 2)
+                plan.append((kind, 'g%d' % g, [rnd.choice(avail)], [out]))
+                wires.append(out)
+            elif kind in ('And2', 'Or2'):
+                out = D.wire('w%d' % g, 2)
+                plan.append((kind, 'g%d' % g, [rnd.choice(avail), rnd.choice(avail)], [out]))
+                wires.append(out)
+            elif kind == 'Mux2':
+                out = D.wire('w%d' % g, 2)
+                plan.append((kind, 'g%d' % g, [rnd.choice(avail), rnd.choice(avail), rnd.choice(avail)], [out]))
+                wires.append(out)
+            else:
+                outs = [D.wire('w%d_%d' % (g, j), 1) for j in range(2)]
+                plan.append(('BitsLSBF', 'g%d' % g, [rnd.choice(avail)], outs))
+                wires.extend(D.wire('x%d_%d' % (g, j), 2) for j in range(0))
+                # 1-bit outputs feed later gates through width-agnostic blocks
+                wires.extend(outs)
+        rnd.shuffle(plan)          # instantiation order is independent of the data flow
+        for kind, name, ins, outs in plan:
+            if kind == 'BitsLSBF':
+                D.make(kind, name, ins[0], outs)
+            else:
+                D.make(kind, name, *ins, *outs)
+        return D
+
+    n = 0
+    bad = None
+    nrand = 60 if tier == 'quick' else 400
+    for t in range(nrand):
+        try:
+            D = random_netlist(rnd.randrange(2, 10), rnd.randrange(1, 4))
+            r = verify(D, 'random')
+        except (ElabError, NetError, PyExc) as e:
+            ctx.error('C04.f', 'random netlist could not be elaborated / sorted: %s' % e)
+            return
+        n += 1
+        if r:
+            names = [(o.cinfo.name, o.attrs.get('name')) for o in D.sys.attrs['children'].values()]
+            bad = dict(problem=r, instantiation_order=names[:12])
+            break
+    if bad:
+        ctx.violation('C04.f', 'random-netlists', 'the evaluation order computed for an acyclic netlist is not a topological order: %s' % bad['problem'], where, witness=bad)
+    else:
+        ctx.ok('C04.f', 'random-netlists', '%d random acyclic netlists (2-9 blocks incl. multi-output and sequential ones, shuffled instantiation order): every list is a topological order, every block once' % n, grade='bounded')
+    # library catalogue
+    ncat = 0
+    badc = None
+    for sp in SPECS:
+        cfgs = list(sp['configs'](tier))
+        for p in cfgs[len(cfgs) // 2:len(cfgs) // 2 + 1]:
+            try:
+                D = Design(facts)
+                sp['build'](D, p)
+                r = verify(D, sp['name'])
+            except ElabRaise:
+                continue
+            except (ElabError, NetError, PyExc) as e:
+                ctx.note('C04.f: catalogue design %s skipped: %s' % (sp['name'], str(e)[:60]))
+                continue
+            ncat += 1
+            if r:
+                badc = dict(problem=r, design=sp['name'], configuration=str(p))
+                break
+        if badc:
+            break
+    if badc:
+        ctx.violation('C04.f', 'catalogue:%s' % badc['design'], 'library block %s: %s' % (badc['design'], badc['problem']), where, witness=badc)
+    else:
+        ctx.ok('C04.f', 'catalogue', '%d library designs: evaluation list is a topological order' % ncat, grade='bounded')
+    # late additions: a second sort after new blocks were added schedules them
+    try:
+        D = Design(facts)
+        a, b, c2 = D.wire('a', 2), D.wire('b', 2), D.wire('c', 2)
+        D.make('Not', 'n0', a, b)
+        sort(D)
+        D.make('Not', 'n1', c2, a)        # producer of n0's input, added later
+        r = verify(D, 'late')
+        if r:
+            ctx.violation('C04.f', 'late-addition', 'after adding a block and sorting again: %s' % r, where, witness=dict(history='sort; add the driver of an existing block; sort'))
+        else:
+            ctx.ok('C04.f', 'late-addition', 're-sort schedules a block added after the first sort, before its consumer')
+    except (ElabError, NetError, PyExc, ElabRaise) as e:
+        ctx.error('C04.f', 'late-addition design: %s' % e)
+    # cyclic netlists are refused
+    def ring(k, via_multi=False):
+        D = Design(facts)
+        ws = [D.wire('r%d' % i, 1) for i in range(k)]
+        for i in range(k):
+            D.make('Not', 'n%d' % i, ws[i], ws[(i + 1) % k])
+        return D
+    for k in (1, 2, 3, 5):
+        D = ring(k)
+        try:
+            sort(D)
+            ctx.violation('C04.f', 'cycle-refused:%d' % k, 'a combinational ring of %d inverter(s) is accepted by the sorter instead of refused' % k, where,
+                          witness=dict(netlist='ring of %d Not gates' % k))
+        except ElabRaise:
+            ctx.ok('C04.f', 'cycle-refused:%d' % k, 'ring of %d inverters is refused' % k)
+        except ElabError as e:
+            if 'budget' in str(e):
+                ctx.ok('C04.f', 'cycle-refused:%d' % k, 'ring of %d inverters never stabilises (pass bound far away; evaluation budget reached)' % k, grade='bounded')
+            else:
+                ctx.error('C04.f', 'ring %d: %s' % (k, e))
+
+
 def run(ctx, sm, facts):
+    ctx.rule('C04.f', 'scheduling code evaluated on elaborated netlists: topological order for random / library netlists, cycles refused')
     ctx.rule('C04.a', 'propagate() reads own inputs, puts own outputs, no prepare, no state (stateful/I-O blocks listed)')
     ctx.rule('C04.b', 'ports of propagatable leaves register as sinks; addIn/addOut/addInOut/addInterface* create and append the port')
     ctx.rule('C04.c', 'scheduling entry points, list-order evaluation, every propagatable leaf once, allLeaves exhaustive, no foreign propagate() caller')
@@ -701,8 +887,16 @@ def run(ctx, sm, facts):
     check_a(ctx, facts)
     check_b(ctx, facts)
     check_c(ctx, facts)
+    check_f(ctx, facts, ctx.tier, ctx.seed)
+    nerr = len(ctx.errors)
     check_d(ctx, facts)
-    ctx.not_decided += ['correctness and termination of the swap-until-stable sorter for all DAGs', 'adequacy of the 1000-pass bound',
+    if not any(v['rule'] == 'C04.f' for v in ctx.violations) and not any(e.startswith('C04.f') for e in ctx.errors):
+        # a sorter rewritten into a shape the C04.d recognisers cannot read is decided by C04.f (evaluation on netlists), not reported as broken
+        for e in ctx.errors[nerr:]:
+            if e.startswith('C04.d'):
+                ctx.note('shape rule not evaluable (%s); sorter decided by C04.f on elaborated netlists' % e[:90])
+        ctx.errors[nerr:] = [e for e in ctx.errors[nerr:] if not e.startswith('C04.d')]
+    ctx.not_decided += ['correctness and termination of the swap-until-stable sorter for all DAGs (decided only on the enumerated netlists)', 'adequacy of the 1000-pass bound',
                         'order independence as such']
 
 
